@@ -465,6 +465,18 @@ Theorem C15_gen_mixed_compare_fact : sh_mixed_compare gen_shape = CmpTypeURL /\ 
 Proof. exact gen_mixed_compare_fact. Qed.
 Print Assumptions C15_gen_mixed_compare_fact.
 
+Theorem C15_gen_stored_value_or_default : forall P kf cust p,
+  quorum_for_sh gen_shape P kf cust p = quorum_for P kf cust p /\
+  period_for_sh gen_shape P kf cust p = period_for P kf cust p.
+Proof. exact gen_stored_value_or_default. Qed.
+Print Assumptions C15_gen_stored_value_or_default.
+
+Theorem C15_stored_zero_quorum_is_zero : forall P kf cust p cp,
+  lookup (kf_key kf (p_msgs p)) cust = Some cp -> c_quorum cp = 0 ->
+  quorum_for_sh gen_shape P kf cust p = 0.
+Proof. exact stored_zero_quorum_is_zero. Qed.
+Print Assumptions C15_stored_zero_quorum_is_zero.
+
 Theorem C15_shadowed_err_matters :
   let sh := with_exec gen_shape false 0 0 1 true true in
   (ext (fst (exec_outcome_sh sh s_any [m_ok; m_bad])), snd (exec_outcome_sh sh s_any [m_ok; m_bad])) = ([7], SPassed) /\
